@@ -203,3 +203,7 @@ Proof.
   induction bs as [|x bs IH]; intros a b H; cbn [fold_left updates]; [exact H|].
   apply IH. apply update_red_eq. exact H.
 Qed.
+
+(* the documented prior of RunningMeanStd(epsilon=1e-4): weight 1e-4, mean 0, variance 1 *)
+Lemma prior_is_documented : eps_default = 1 # 10000 /\ rms_init eps_default = mk_rms 0 1 (1 # 10000).
+Proof. split; reflexivity. Qed.
